@@ -24,8 +24,10 @@ LIST_KEYS = ("main", "env", "threads.0", "threads.1", "threads.2", "sched.decisi
 
 RULE = ("one evaluation = one seeded execution of a workload (requests with time-outs 0/small/large/None, unget_bytes, "
         "event/scheduled/threadsafe trigger calls, byte arrivals from single keys to multi-kilobyte bursts, SIGINT/SIGWINCH, "
-        "0..3 trigger threads) against a real Input under a seeded scheduler (PCT-like forced pre-emptions + switch "
-        "probability, pre-emption points at every seam call and every line of curtsies/input.py), followed by a drain; "
+        "0..3 trigger threads, two triggers of each kind, requests also through next(), a cursor query by a window sharing "
+        "the tty, a second Input that must keep what was put into it) against a real Input under a seeded scheduler (PCT-like forced pre-emptions + switch "
+        "probability, pre-emption points at every seam call and every line of the package except the per-byte decoding "
+        "functions), followed by a drain; "
         "every request is judged against a reference queue model. distinct = distinct SHA-1 of the full event log (every "
         "seam call with arguments and results, every scheduling decision, every oracle observation); non-trivial = at least "
         "one fault kind fired (pre-emption, stale wake-up, short read, burst, signal, time-out expiry, ...) ")
